@@ -70,6 +70,10 @@ class Lab:
             if positional and r.random() < 0.4:
                 n = self.exact_struct(depth + 1)
                 return n, {"k": "struct", "name": "lab::" + n}, "empty", "dflt", True
+            if positional and greedy_ok and r.random() < 0.6:
+                # a nested struct without length prefix as the very last field: it takes everything that is left
+                n = self.any_struct(depth + 1)
+                return n, {"k": "struct", "name": "lab::" + n}, "empty", "dflt", False
             n = self.any_struct(depth + 1)
             ln = "tlv" if tagged_via == "tlv" else r.choice(["tlv", "llv:2", "llv:3"])
             return n, {"k": "struct", "name": "lab::" + n}, ln, "dflt", True
@@ -100,7 +104,9 @@ class Lab:
             greedy_ok = last and n_tagged == 0
             rt, tj, ln, enc, exact = self.field_type(depth, True, greedy_ok, None)
             wrap = r.random()
-            if exact and ln.startswith("fixed") and wrap < 0.12:
+            if exact and (ln.startswith("fixed") or ln in ("tlv", "llv:2", "llv:3")) and wrap < 0.2:
+                rt, tj = f"Option<{rt}>", {"k": "opt", "t": tj}
+            elif last and n_tagged == 0 and tj["k"] == "struct" and ln == "empty" and not exact and wrap < 0.5:
                 rt, tj = f"Option<{rt}>", {"k": "opt", "t": tj}
             elif last and n_tagged == 0 and tj["k"] == "int" and ln == "empty" and enc in ("dflt", "be") and wrap < 0.25:
                 rt, tj = f"Vec<{rt}>", {"k": "vec", "t": tj}
